@@ -7,6 +7,8 @@ from .c04 import ASSUME
 
 def aborted(r):
     a = r['actions']
+    if a.get('VoteFail'):
+        return True
     return (a.get('Abort', 0) + a.get('AbortFailed', 0) + a.get('AbortVoted', 0) + a.get('AbortStaged', 0)) >= 1 and r['txns'] >= 1
 
 
@@ -30,8 +32,25 @@ def run(ctx):
         if kind == 'file':
             # a reader racing with the vote (sparse observation, records spread over several read buffers)
             res += S.replay_all(ctx, files[1::2], kind, c2, opts={'sparse': True, 'pad': 3000}, tag='race')
+        if kind == 'file':
+            # every individual low-level write of the vote fails in turn (error, or short write then error); also
+            # the persistent variant (every later operation fails too until the abort returns)
+            from .. import faultfs
+            faultfs.install()
+            c3 = sd.consts(kind, Cls=cls, **dict(big, Metas=('m0', 'm1'), MaxTxn=12))
+            ff = S.simulate(ctx, kind + '-fault', c3, num=num // 2, depth=70, seed=ctx.seed + 8, next_='NextFault')
+            nf = 0
+            for k in range(0, 4):
+                for fk in ('error', 'short'):
+                    rr = S.replay_all(ctx, ff, kind, c3, opts={'bytes_check': True, 'fault_k': k, 'fault_kind': fk,
+                                                                'pad': (0, 9000)[k % 2]}, tag='f%d%s' % (k, fk))
+                    rr = [r for r in rr if not r.get('fault_not_reached')]
+                    nf += sum(r['actions'].get('VoteFail', 0) for r in rr)
+                    res += rr
+            cov['faults_injected'] = nf
         cov[kind] = S.judge(ctx, res, kind, focus=aborted)
         cov[kind]['sample'] = res[0]['sig'][:25]
+    nf = cov.pop('faults_injected', 0)
     ev = sum(v['behaviours'] for v in cov.values())
     return ctx.finish({
         'evaluations': ev,
@@ -44,6 +63,7 @@ def run(ctx):
                 'specification gives; non-trivial = contains an abort and a commit',
         'traces_validated_against_impl': ev,
         'per_storage': cov,
+        'vote_faults_injected': nf,
         'samples': [cov[k]['sample'] for k in cov],
         'exhaustive': False,
     }, ASSUME)
